@@ -1,5 +1,6 @@
 import OutlineModel.Model.Util
 import OutlineModel.Model.UDP
+import OutlineModel.Model.UDPRun
 import OutlineModel.Gen.Consts
 import OutlineModel.Gen.PrivateNets
 /- engine `udp` (see Model/UDP.lean):
@@ -74,6 +75,8 @@ def step (d : St) (args : List String) : St × String :=
         | .domain _ _ => if res == "fail" then .fail else if res == "nil" then .ip [] else
             match parseHex? res with | some ip => .ip ip | none => .fail
       let (st', effs) := upstream dnsPortNat ki validate resolve d.st c ip wire opens plain
+      -- sendfails=1: the operating system refuses the send (destination port 0)
+      let effs := if field? fs "sendfails" == some "1" then failSend effs else effs
       ({ d with st := st' }, showEffs effs)
     | _, _, _, _, _, _ => (d, "bad-op")
   | "reply" :: fs =>
